@@ -143,9 +143,43 @@ def arm(t, m):
     return f"            {m.idx} => {{\n" + call_block(t, m, gw, gr) + "\n            }"
 
 
+def both_children_block(t):
+    """two children lent by different `&self` methods, alive at the same time: each must keep
+    answering as its own directly borrowed counterpart (every method has its own temporary slot)"""
+    ms = [m for m in t.methods if isinstance(m.ret, gen.RChild) and m.ret.mode == "ref" and m.recv == "ref" and not getattr(m, "skip", False)]
+    if len(ms) < 2:
+        return ""
+    a, b = ms[0], ms[1]
+    # prefer two wrappers of the same kind (both objects or both groups) over different leaves
+    for x in ms:
+        for y in ms:
+            if x is not y and x.idx < y.idx and x.ret.group == y.ret.group and getattr(x.ret, "field", "") != getattr(y.ret, "field", ""):
+                a, b = x, y
+                break
+        else:
+            continue
+        break
+
+    def pair(m, salt):
+        # (such methods only take by-value arguments; both sides get equal values)
+        setups = " ".join(x.setup() for x in m.args)
+        return f"{{ let mut g = Gen::new(0x2C41u64 ^ {salt}); {setups} ({call_expr(m, 'ow', 'w')}, {call_expr(m, 'or_', 'r')}) }}"
+
+    L = ["    if let (Some(ow), Some(or_)) = (o.as_ref(), r.as_ref()) {",
+         f"        let (aw, ar) = {pair(a, 1)};",
+         f"        let (bw, br) = {pair(b, 2)};",
+         "        let (pa, pb, qa, qb) = (probe_leaf_ref(aw), probe_leaf_ref(bw), probe_leaf_ref(ar), probe_leaf_ref(br));",
+         f"        if pa != qa || pb != qb {{ return Err(Fail::new(\"C01:child\", format!(\"children lent by {t.name}::{a.name} and {t.name}::{b.name} and kept alive together answer {{:#x}} / {{:#x}}, the directly borrowed ones {{:#x}} / {{:#x}}\", pa, pb, qa, qb))); }}",
+         f"        check_step(sw, sr, wid, \"{t.name}: two borrowed children\")?;",
+         "        fl.borrowed_children += 2; fl.transfers += 2;",
+         "    }"]
+    return "\n".join(L)
+
+
 def driver_def(t):
     bounds = "".join(f", O::{n}: {b.split(' ')[0]}" for (n, _, b) in t.assocs())
     arms = "\n".join(arm(t, m) for m in t.methods)
+    both = both_children_block(t)
     return f"""
 pub const NAME: &str = "{t.name}";
 pub const NMETH: usize = {t.orig_n or len(t.methods)};
@@ -170,6 +204,7 @@ where O: Sized{bounds}
         }}
         if o.is_some() {{ live(1, fl)?; }}
     }}
+{both}
     Ok(())
 }}
 """
@@ -264,11 +299,12 @@ def imp_struct():
 pub struct Imp {
     pub core: Core,
     pub ch_ref: LeafImp,
+    pub ch_ref2: LeafImp,
     pub ch_mut: LeafImp,
 }
 impl Imp {
     pub fn new(sh: Arc<Shared>, id: u64) -> Self {
-        Imp { core: Core::new(sh, id), ch_ref: LeafImp::new(id ^ 0x1111), ch_mut: LeafImp::new(id ^ 0x2222) }
+        Imp { core: Core::new(sh, id), ch_ref: LeafImp::new(id ^ 0x1111), ch_ref2: LeafImp::new(id ^ 0x3333), ch_mut: LeafImp::new(id ^ 0x2222) }
     }
 }
 """
@@ -459,11 +495,12 @@ use cglue::trait_group::{{GetContainer, CGlueObjBase}};
 pub struct GImp {{
     pub core: Core,
     pub ch_ref: LeafImp,
+    pub ch_ref2: LeafImp,
     pub ch_mut: LeafImp,
 }}
 impl GImp {{
     pub fn new(sh: Arc<Shared>, id: u64) -> Self {{
-        GImp {{ core: Core::new(sh, id), ch_ref: LeafImp::new(id ^ 0x1111), ch_mut: LeafImp::new(id ^ 0x2222) }}
+        GImp {{ core: Core::new(sh, id), ch_ref: LeafImp::new(id ^ 0x1111), ch_ref2: LeafImp::new(id ^ 0x3333), ch_mut: LeafImp::new(id ^ 0x2222) }}
     }}
 }}
 
